@@ -29,6 +29,7 @@ UNIVERSE = ["WAPProtocol", "GeminiProtocol", "HTTPProtocol", "HTTPSProtocol", "S
             "EnhancedGopherProtocol", "URLGopherPlus"]
 BUILTIN_SHIPPED = UNIVERSE[:9]
 FINDING_EMPTY_PLUS = "C02-gopherplus-empty-field"
+FINDING_GLUED = "C02-wap-accept-glued"
 
 # ---------------------------------------------------------------------------------------------
 # gamma: abstract characters / header kinds -> concrete bytes (several representatives per class)
@@ -40,16 +41,34 @@ CLASS_REPS = {
     "x": [b"x", b"q", b"B"],                                            # an ordinary ASCII letter
     "0": [b"0", b"5", b"9"],                                            # a digit
 }
+# Header lines: NAME ":" VALUE EOL.  For the Accept kinds the VALUE spellings cover the position of the WML type in
+# the list (first, only, middle, last), a blank / no blank after the colon, comma / comma-blank / blank separators
+# and parameters.  gamma picks one spelling PER OCCURRENCE (stable hash of seed, case and position), so that every
+# spelling is exercised many times within one run whatever the seed.
+WML = "text/vnd.wap.wml"
+ACCEPT_VALUES = {
+    "AW": [" text/html, " + WML, " " + WML, " " + WML + ", text/html", " text/html," + WML + ",*/*",
+           "text/html," + WML, " text/html " + WML, " */*, " + WML + ";q=0.5", "text/html, " + WML + ", image/gif",
+           " " + WML + ",text/html;q=0.9", "  " + WML, " image/gif ," + WML],
+    "AG": [WML, WML + ",text/html", WML + ", */*;q=0.1", "\t" + WML, WML + ";q=1"],     # WML first, nothing (or a TAB) before it
+    "AO": [" text/html", " */*", "", "text/html,image/gif", " text/html, application/xhtml+xml", " text/vnd.wap", " image/vnd.wap.wbmp"],
+}
+ACCEPT_NAMES = ["Accept", "ACCEPT", "accept", "aCCept"]
+EOLS = [b"\r\n", b"\n"]
 HDR_REPS = {
-    "AW": [b"Accept: text/html, text/vnd.wap.wml\r\n", b"ACCEPT: text/vnd.wap.wml\r\n",
-           b"accept: */*,text/vnd.wap.wml;q=0.5\n"],
-    "AO": [b"Accept: text/html\r\n", b"accept: */*\r\n", b"Accept:\n"],
-    "XP": [b"x-wap-profile: http://example.com/p.xml\r\n", b"X-Wap-Profile: \"http://a/b\"\r\n", b"X-WAP-PROFILE: a:b\n"],
-    "XU": [b"x-up-devcap-max-pdu: 1024\r\n", b"X-Up-Devcap-Max-Pdu: 1\r\n", b"X-UP-DEVCAP-MAX-PDU:\n"],
+    "XP": [b"x-wap-profile: http://example.com/p.xml\r\n", b"X-Wap-Profile: \"http://a/b\"\r\n", b"X-WAP-PROFILE: a:b\n",
+           b"x-wap-profile:http://example.com/p.xml\r\n"],
+    "XU": [b"x-up-devcap-max-pdu: 1024\r\n", b"X-Up-Devcap-Max-Pdu: 1\r\n", b"X-UP-DEVCAP-MAX-PDU:\n", b"x-up-devcap-max-pdu:2048\n"],
     "NC": [b"no colon here\r\n", b"HTTP/1.0 junk\r\n", b"x\n"],
     "BL": [b"\r\n", b"\n", b" \t\r\n"],
 }
 NREPS = 3
+HSEED = 0          # set from chk.seed (and from the replay file)
+
+
+def _pick(n, *key):
+    import zlib
+    return zlib.crc32(repr(key).encode("utf-8", "surrogateescape")) % n
 
 
 def concretise_line(line: str, rep: int) -> bytes:
@@ -77,8 +96,22 @@ def abstract_line(data: bytes) -> str:
     return "".join(out)
 
 
-def concretise_hdrs(hdrs, rep: int):
-    return [HDR_REPS[k][rep % len(HDR_REPS[k])] for k in hdrs]
+def concretise_hdrs(case, rep: int):
+    """-> (header lines as bytes, spelling ids such as 'AW3')"""
+    out, ids = [], []
+    hdrs = case["hdrs"]
+    for pos, k in enumerate(hdrs):
+        key = (HSEED, case["line"], case["tls"], tuple(hdrs), pos, rep)
+        if k in ACCEPT_VALUES:
+            vals = ACCEPT_VALUES[k]
+            i = _pick(len(vals), "v", *key)
+            name = ACCEPT_NAMES[_pick(len(ACCEPT_NAMES), "n", *key)]
+            out.append(name.encode() + b":" + vals[i].encode() + EOLS[_pick(2, "e", *key)])
+        else:
+            i = _pick(len(HDR_REPS[k]), "h", *key)
+            out.append(HDR_REPS[k][i])
+        ids.append("%s%d" % (k, i))
+    return out, ids
 
 
 # ---------------------------------------------------------------------------------------------
@@ -120,7 +153,7 @@ def tla(v) -> str:
 TOK_BASE = ["GET", "HEAD", "HTTP/", "gemini:", "/", "x", "0", " ", "\t", "+", "!", "$", "#", "_", "^", "\r"]
 FAMB_LINES = dict(M={"GET", "HEAD", "get", "x"}, S={" ", "\t"}, P={"/wap", "/wap/x", "/wapx", "/wap?x", "/x", "x/wap", ""},
                   V={"HTTP/1.0", "http/1.0", "xHTTP/", "0"})
-KINDS = {"AW", "AO", "XP", "XU", "NC", "BL"}
+KINDS = {"AW", "AG", "AO", "XP", "XU", "NC", "BL"}
 
 
 def other_lists(shipped, tier):
@@ -167,7 +200,7 @@ def configs(tier, shipped):
         tokens=TOK_BASE + ["/wap", "7"], na=4, terms_a={"\r\n"}, hdrs_a=[[]],
         famb=[dict(big, T={"\r\n", "\n"}, HK=KINDS, HN=2),
               dict(M={"GET", "HEAD", "x"}, S={" "}, P={"/wap", "/wapx", "/wap?x", "/x", ""}, V={"HTTP/1.0", "0"}, T={"\r\n", "\n"},
-                   HK=KINDS - {"NC"}, HN=4)],
+                   HK=KINDS - {"NC", "XU"}, HN=4)],
         csel={"", "x", "/x"}, cfields={"", "+", "!", "$", "+x", "!x", "x", " ", "$x", "x+", "_", "^"}, cn=3,
         terms_c={"\r\n", "\n", ""}, hdrs_c=[[], ["AW", "XP"]])
     orders = dict(
@@ -178,7 +211,11 @@ def configs(tier, shipped):
     return {"main": main, "orders": orders}
 
 
-def consts_module(c, shipped, waptop, raises):
+GLUED = False      # model follows the code's reading of "Accept:<WML first>" (set from the findings list)
+
+
+def consts_module(c, shipped, waptop, raises, glued=None):
+    glued = GLUED if glued is None else glued
     listed = []
     for l in c["lists"]:
         for p in l:
@@ -192,6 +229,7 @@ def consts_module(c, shipped, waptop, raises):
         "\\* GENERATED by harness/c02.py for this run (B1: shipped order and waptop from conf/pygopherd.conf)",
         "C_WapTop == " + tla(waptop),
         "C_EmptyPlusFieldRaises == " + tla(bool(raises)),
+        "C_GluedAcceptUnrecognised == " + tla(bool(glued)),
         "C_Shipped == " + tla(list(shipped)),
         "C_Lists == <<" + ",\n  ".join(tla(l) for l in c["lists"]) + ">>",
         "C_Listed == " + tla(listed),
@@ -289,7 +327,7 @@ def run_batch(job):
         lb = concretise_line(c["line"], rep)
         if abstract_line(lb) != c["line"]:
             raise core.MachineryError("gamma/alpha round trip failed for %r -> %r" % (c["line"], lb))
-        hb = concretise_hdrs(c["hdrs"], rep)
+        hb, hids = concretise_hdrs(c, rep)
         conc.append((lb, hb))
         got, exc, pos = _detect(exprs["lists"][0], lb, hb, c["tls"])
         alone, aexc = [], []
@@ -308,7 +346,7 @@ def run_batch(job):
                                {"ev": "alone", "r": alone},
                                {"ev": "orders", "got": orders}],
                     "x": {"exc": exc, "raw_got": got, "alone_exc": aexc, "orders_exc": oexc,
-                          "bytes": (lb + b"".join(hb)).decode("latin-1"), "rep": rep}})
+                          "bytes": (lb + b"".join(hb)).decode("latin-1"), "rep": rep, "spellings": hids}})
     for i in range(len(cases) - 1, -1, -1):            # later in the process' life, in the opposite order
         lb, hb = conc[i]
         g, _x, _ = _detect(exprs["lists"][0], lb, hb, cases[i]["tls"])
@@ -474,7 +512,9 @@ def report(chk, traces, tv, cfgname, tier, lists):
             case.update(_classify_input(t["init"]["line"]))
             xs = [t["x"]["exc"]] + [e for e in t["x"]["alone_exc"] if e] + [e for e in t["x"]["orders_exc"] if e]
             case["exc"] = next((e for e in xs if e), None)
-            case["config"], case["tier"] = cfgname, tier
+            case["config"], case["tier"], case["hseed"] = cfgname, tier, HSEED
+            case["glued_wml_first_accept"] = "AG" in t["init"]["hdrs"]
+            case["got"] = t["events"][0]["got"]
             detail["lists"] = lists if len(lists) <= 12 else "%d lists of configuration %s/%s" % (len(lists), tier, cfgname)
         chk.violation(key, rj["clause"], case, detail)
     chk.note_drift([dict(d, key=_case_key(traces[d["index"]])) for d in tv["drift"]])
@@ -513,7 +553,7 @@ def lines_run(chk, name, c, shipped, conf_exprs, waptop, raises, tier, reps, onl
     if missing:
         raise core.MachineryError("C02: protocol classes not found in pygopherd.protocols: %s" % missing)
     exprs = {"lists": ["[%s]" % ", ".join(exprmap[p] for p in l) for l in c["lists"]], "listed": [exprmap[p] for p in listed]}
-    st = dict(answered={}, contested=set(), slurped=0, traces=0, accepted=0, rejected=0, trace_states=0, samples=[],
+    st = dict(spellings={}, aw_detected=set(), answered={}, contested=set(), slurped=0, traces=0, accepted=0, rejected=0, trace_states=0, samples=[],
               tv_cmd="", replay_s=0.0, validation_s=0.0)
     B = 400
     for o in range(0, len(cases), SLICE):
@@ -538,6 +578,10 @@ def lines_run(chk, name, c, shipped, conf_exprs, waptop, raises, tier, reps, onl
                 st["contested"].add((t["init"]["line"], t["init"]["tls"], tuple(t["init"]["hdrs"])))
             if t["events"][0]["pos"] > 0:
                 st["slurped"] += 1
+                if g == "WAPProtocol":
+                    st["aw_detected"].update(i for i in t["x"]["spellings"] if i[:2] in ("AW", "AG"))
+            for i in t["x"]["spellings"]:
+                st["spellings"][i] = st["spellings"].get(i, 0) + 1
         if not st["samples"]:
             st["samples"] = [{"id": t["id"], "init": t["init"], "bytes": t["x"]["bytes"], "events": t["events"]}
                              for t in traces[:1] + traces[len(traces) // 2:len(traces) // 2 + 2]]
@@ -590,7 +634,10 @@ def _main(chk, replay=None):
     if unknown:
         raise core.MachineryError("C02: the shipped protocol list names classes the model does not know: %s "
                                   "(extend Universe/Shape in spec/Wire.tla)" % unknown)
+    global GLUED, HSEED
     raises = any(f.get("id") == FINDING_EMPTY_PLUS for f in chk.known)
+    GLUED = any(f.get("id") == FINDING_GLUED for f in chk.known)
+    HSEED = chk.seed
     tier = chk.tier
     cfgs = configs(tier, shipped)
     reps = [chk.seed % NREPS] if tier == "quick" else [chk.seed % NREPS, (chk.seed + 1) % NREPS]
@@ -604,6 +651,7 @@ def _main(chk, replay=None):
         elif c.get("kind") == "conn":
             only_conn = {"line": c["line"], "tls": c["tls"], "hdrs": c["hdrs"]}
             reps = [c.get("rep") or 0]
+            HSEED = c.get("hseed", chk.seed)
             tier = c.get("tier") or tier
             cfgs = configs(tier, shipped)
             cfgs = {c.get("config", "main"): cfgs[c.get("config", "main")]}
@@ -633,6 +681,14 @@ def _main(chk, replay=None):
             raise core.MachineryError("C02 vacuous: no case was claimed by two protocols")
         if not sum(r["st"]["slurped"] for r in runs.values()):
             raise core.MachineryError("C02 vacuous: no detection consumed a header line (WAP slurp never exercised)")
+        used = set().union(*[set(r["st"]["spellings"]) for r in runs.values()])
+        want = {"%s%d" % (k, i) for k, v in ACCEPT_VALUES.items() for i in range(len(v))}
+        if want - used:
+            raise core.MachineryError("C02 vacuous: Accept spellings never generated: %s" % sorted(want - used))
+        seen = set().union(*[r["st"]["aw_detected"] for r in runs.values()])
+        undet = {w for w in want if w.startswith("AW")} - seen
+        if undet:
+            raise core.MachineryError("C02 vacuous: Accept spellings never decisive in a WAP auto-detection: %s" % sorted(undet))
         peeks = sum(1 for t in sn["traces"] for e in t["events"] if e["ev"] == "recv")
         wraps = sum(1 for t in sn["traces"] for e in t["events"] if e["ev"] == "wrapcall")
         if not peeks or not wraps:
@@ -663,6 +719,8 @@ def _main(chk, replay=None):
                                   + ([sn["res"]["cmd"]] if sn else [])),
         "trace_states": sum(r["st"]["trace_states"] for r in runs.values()) + (sn["tv"]["states"] if sn else 0),
         "model_coverage_zero": zero, "timing": {n: r["timing"] for n, r in runs.items()},
+        "accept_spellings_used": {k: n for r in runs.values() for k, n in sorted(r["st"]["spellings"].items()) if k[:2] in ("AW", "AG", "AO")},
+        "model_follows_code_reading_of_glued_accept": GLUED,
         "constants_bound": bound, "shipped": shipped, "waptop": waptop, "model_follows_unrepaired_gopherplus": raises,
         "bindings": ["B1 shipped order + waptop from conf/pygopherd.conf", "B2 every TLC-enumerated case replayed through the real "
                      "getProtocol / wrap_socket", "B3 TraceC02"],
@@ -672,7 +730,10 @@ def _main(chk, replay=None):
         "(no real handshake); the sniff is exercised separately on a real socketpair with a recording stand-in for the SSL context",
         "lines are enumerated over class characters (HI, NB, FS, letter, digit) with %d representative set(s) per case; the "
         "documented shapes where RFC 1945 / Gopher+.txt are stricter than the server are the pinned permissive readings in spec/Wire.tla" % len(reps),
-        "header values are abstracted to kinds (Accept listing WML or not, WAP profile headers, no-colon line, blank line)",
+        "header lines are kinds in the model (Accept listing WML / listing WML first glued to the colon / not listing it, WAP "
+        "profile headers, no-colon line, blank line); their spellings (position of WML in the list, blank after the colon, separators, "
+        "name case, line ending) are chosen per occurrence by a stable hash; type names that merely begin with text/vnd.wap.wml "
+        "(wmlscript, wmlc) are not generated",
     ]
     if not bound:
         assumptions.append("constants binding unavailable: conf/pygopherd.conf could not be read, built-in shipped list used")
@@ -695,7 +756,7 @@ def selftest():
 def _selftest():
     shipped, conf_exprs, waptop, _ = read_conf()
     c = configs("quick", shipped)["main"]
-    consts_text, listed = consts_module(c, shipped, waptop, False)
+    consts_text, listed = consts_module(c, shipped, waptop, False, glued=True)
     _world()
     exprmap = class_exprs(conf_exprs)
     exprs = {"lists": ["[%s]" % ", ".join(exprmap[p] for p in l) for l in c["lists"]], "listed": [exprmap[p] for p in listed]}
